@@ -233,16 +233,15 @@ func init() {
 		rep := &vx.Report{Job: c.Job, Engine: "enum", Outcomes: map[string]int64{}, Exhaustive: true}
 		cs := hsCase{Transport: c.P("transport", "direct"), Browser: "firefox", Method: "plain", ProxyMethod: "shadowsocks", SID: 3, ServerName: "example.com"}
 		uid := uidOf(0)
-		first, r := captureFirst(cs, uid)
-		tr := transportOf(cs.Transport)
-		// the client stamped the packet with the current second
+		// the client's clock is frozen at a known second while it builds the packet (reading the real clock
+		// after the capture would make the edge cases depend on when a second boundary falls)
 		stamp := rtime.Now().Unix()
-		// find the exact stamp: the offset at which acceptance is symmetric; it is one of now, now-1
+		cs.UseAbsClock, cs.AbsClock = true, stamp
+		first, r := captureFirst(cs, uid)
+		cs.UseAbsClock = false
+		tr := transportOf(cs.Transport)
 		for _, sub := range []rtime.Duration{0, 500 * rtime.Millisecond} {
 			for off := -185; off <= 185; off++ {
-				for _, st := range []int64{stamp, stamp - 1} {
-					_ = st
-				}
 				server := rtime.Unix(stamp, 0).Add(rtime.Duration(-off)*rtime.Second + sub)
 				sta := &State{StaticPv: r.sta.StaticPv, UsedRandom: map[[32]byte]int64{}, WorldState: common.WorldState{Now: func() rtime.Time { return server }}}
 				_, _, err := AuthFirstPacket(first, tr, sta)
@@ -253,7 +252,6 @@ func init() {
 				want := delta > -180 && delta < 180
 				got := err == nil
 				if got != want {
-					// the capture may have straddled a second boundary: tolerate a consistent shift of one second
 					rep.Outcomes["mismatch"]++
 					rep.Violations = append(rep.Violations, vx.Violation{Clause: "strict-timestamp-window", Sig: vx.Sig(c.Job, "strict-timestamp-window"), Msg: fmt.Sprintf("client clock %+d s, server sub-second %v: accepted=%v, the strict +-180 s window says %v (err %v)", off, sub, got, want, err)})
 				}
@@ -278,7 +276,6 @@ func init() {
 			rep.Outcomes[fmt.Sprintf("extreme-accepted=%v", err == nil)]++
 		}
 		if n := len(rep.Violations); n > 0 {
-			// a capture that straddled a second boundary shifts everything by one: retry logic is in the job table (seed)
 			rep.Exhaustive = false
 			rep.Violations = rep.Violations[:1]
 		}
